@@ -64,18 +64,31 @@ def copy_imagefolder_from_global_to_local(global_path, local_path, relative_path
             else:
                 # incomplete copy -> delete and copy again
                 log(log_fn, f"found incomplete automatic copy in '{dst_path}' -> deleting folder")
-                shutil.rmtree(dst_path)
+                # delete the content but keep the start file
+                # (if the process dies while deleting, the folder is still recognized as incomplete copy)
+                for item in dst_path.iterdir():
+                    if item == start_copy_file:
+                        continue
+                    if item.is_dir() and not item.is_symlink():
+                        shutil.rmtree(item)
+                    else:
+                        item.unlink()
                 was_deleted = True
-                dst_path.mkdir()
         else:
             log(log_fn, f"using manually copied dataset '{dst_path}'")
             return CopyImageFolderResult(was_copied=False, was_deleted=False, was_zip=False, was_zip_classwise=False)
     else:
-        dst_path.mkdir(parents=True)
-
-    # create start_copy_file
-    with open(start_copy_file, "w") as f:
-        f.write("this file indicates that an attempt to copy the dataset automatically was started")
+        # create dst_path together with the start_copy_file (create both in a temporary folder and rename it)
+        # if the process dies in between, dst_path never exists without start_copy_file
+        # (a folder without start_copy_file would be mistaken for a manually copied dataset)
+        dst_path.parent.mkdir(parents=True, exist_ok=True)
+        temp_path = dst_path.with_name(f"{dst_path.name}.autocopy_temp")
+        if temp_path.exists():
+            shutil.rmtree(temp_path)
+        temp_path.mkdir()
+        with open(temp_path / start_copy_file.name, "w") as f:
+            f.write("this file indicates that an attempt to copy the dataset automatically was started")
+        os.rename(temp_path, dst_path)
 
     # copy
     was_zip = False
